@@ -167,20 +167,18 @@ unsafe impl<T, N: ArrayLength> GenericSequence<T> for Box<GenericArray<T, N>> {
         F: FnMut(usize) -> T,
     {
         unsafe {
-            use core::{
-                alloc::Layout,
-                mem::{size_of, MaybeUninit},
-                ptr,
-            };
+            use core::mem::MaybeUninit;
 
-            // Box::new_uninit() is nightly-only
-            let ptr: *mut GenericArray<MaybeUninit<T>, N> = if size_of::<T>() == 0 {
-                ptr::NonNull::dangling().as_ptr()
-            } else {
-                alloc::alloc::alloc(Layout::new::<GenericArray<MaybeUninit<T>, N>>()).cast()
-            };
+            // `Box::new_uninit` takes care of zero-sized layouts and of allocation failure,
+            // and the `Box` owns the allocation while it is being filled, so it is freed if `f` panics.
+            //
+            // SAFETY: An uninitialized array of `MaybeUninit<T>` is valid, same as `GenericArray::uninit`
+            let mut array: Box<GenericArray<MaybeUninit<T>, N>> =
+                Box::<GenericArray<MaybeUninit<T>, N>>::new_uninit().assume_init();
 
-            let mut builder = IntrusiveArrayBuilder::new(&mut *ptr);
+            // NOTE: Declared after `array`, so on panic the builder drops
+            // the initialized elements before the allocation is released.
+            let mut builder = IntrusiveArrayBuilder::new(&mut *array);
 
             {
                 let (builder_iter, position) = builder.iter_position();
@@ -193,7 +191,7 @@ unsafe impl<T, N: ArrayLength> GenericSequence<T> for Box<GenericArray<T, N>> {
 
             builder.finish();
 
-            Box::from_raw(ptr.cast()) // IntrusiveArrayBuilder::array_assume_init
+            Box::from_raw(Box::into_raw(array).cast()) // IntrusiveArrayBuilder::array_assume_init
         }
     }
 }
